@@ -7,9 +7,14 @@
        rest; with an empty rest the log is untouched, otherwise the log is cut exactly after the present part
        (a no-op cut when the rest extends the log) and the rest appended: it agrees with the request, never
        removes an entry that does not conflict, never touches anything at or before the request's prev index.
-   The cluster-level statement C06_statement (any two persistent logs, all schedules) is stated in
-   Cluster/Statements.v and not yet proved; it is decided on every run by the co-simulation and the
-   log-matching monitor over every pair of observed logs. *)
+   Cluster level: C06_log_matching_partial below proves the Log Matching property between ANY two persistent
+   logs of ANY reachable world, for every execution without membership changes and WITHOUT SNAPSHOTS (every
+   cluster size, delivery order, loss, duplication, delay, crash at any storage write - torn batches included -
+   and restart; no bound on terms, log lengths or steps).  The full statement C06_statement (Cluster/Statements.v)
+   also allows snapshots (log compaction, InstallSnapshot, the restore-time reconciliation of fix D17); that
+   part is not proved - it needs Leader Completeness (a snapshot never conflicts with a committed prefix) - and
+   is decided on every run by the co-simulation and the log-matching monitor over every pair of observed logs. *)
+From RaftV Require Import Proofs.LogMatching.
 From RaftV Require Import Cluster.Statements Proofs.AESpec.
 Open Scope N_scope.
 
@@ -66,3 +71,28 @@ Example C06_nonvacuous :
   map e_term (n_log (fst (h_append_entries 100 ex_node ex_req))) = [0; 1; 1; 3] /\
   n_commit (fst (h_append_entries 100 ex_node ex_req)) = 3.
 Proof. repeat split; try discriminate; vm_compute; auto. Qed.
+
+(* C06 at cluster level, every schedule without membership changes and without snapshots: if two logs of a
+   reachable world hold an entry with the same index and term, they hold exactly the same entries up to that
+   index.  (Proofs/Log*.v: every node log and every AppendEntries request ever sent are pairwise one-step
+   matching segments; every entry has a creator, the unique winner of its term (C02), who still holds it as
+   long as its persistent term is that term; a leader only appends; a follower's new log reads like its old log
+   below the cut and like the request from the cut on, whatever prefix of the batch reached the disk.) *)
+Theorem C06_log_matching_partial : forall ids boot et ld ls, static ls = true -> nosnap ls = true ->
+  let w := run (init_world ids boot et ld) ls in
+  forall a b i t, In a (w_nodes w) -> In b (w_nodes w) ->
+    entry_at (n_log a) i t -> entry_at (n_log b) i t ->
+    forall e, e_index e <= i -> first_index (n_log a) < e_index e -> first_index (n_log b) < e_index e ->
+      (In e (n_log a) <-> In e (n_log b)).
+Proof. intros ids boot et ld ls Hs Hn. exact (log_matching_nosnap ids boot et ld ls Hs Hn). Qed.
+Print Assumptions C06_log_matching_partial.
+
+(* not vacuous: a schedule after which three logs hold the entry (2, 1) *)
+Definition c06_labels : list label :=
+  [LTick 4; LElection 0; LElectionRun 0; LTask 0; LTask 0; LDeliver 0; LReply 0; LElectionRun 0; LTask 0; LTask 0;
+   LDeliver 1; LReply 1; LDeliver 2; LReply 2; LTask 0; LTask 0; LDeliver 4; LDeliver 5].
+Example C06_cluster_not_vacuous :
+  static c06_labels = true /\ nosnap c06_labels = true /\
+  map (fun n => map (fun e => (e_index e, e_term e)) (n_log n)) (w_nodes (run (init_world [0; 1; 2] [0; 1; 2] 4 2) c06_labels))
+  = [[(0, 0); (1, 1); (2, 1)]; [(0, 0); (1, 1); (2, 1)]; [(0, 0); (1, 1); (2, 1)]].
+Proof. split; [reflexivity|]. split; [reflexivity|]. vm_compute. reflexivity. Qed.
